@@ -104,10 +104,13 @@ def x_conformance(wd, binp, seed, names, nrand=100):
     never a verdict."""
     import subprocess, shutil, time
     t0 = time.time()
-    total = dict(traces=0, events=0, steps=0, drift=0, samples=[])
-    for name in names:
+    import threading
+    total = dict(traces=0, events=0, steps=0, drift=0, incomplete=0, samples=[])   # incomplete: scenarios whose validation did not run to the end
+    lock = threading.Lock()
+
+    def one(name):
         if not os.path.exists(scen_path(name)):
-            continue
+            return
         sc = json.load(open(scen_path(name)))
         scheds = [{"name": "%s/x%d" % (name, i), "scenario": sc, "labels": []} for i in range(nrand)]
         sf = os.path.join(wd, "x-%s-scheds.json" % name)
@@ -117,8 +120,10 @@ def x_conformance(wd, binp, seed, names, nrand=100):
         p = subprocess.run([binp, "-test.run", "^TestRun$", "-driver", "ccontainer", "-out", tf, "-stats", stf, "-sched", sf, "-seed", str(seed), "-logsteps"],
                            cwd=wd, capture_output=True, text=True)
         if p.returncode != 0:
-            total["samples"].append("%s: harness failed" % name)
-            continue
+            with lock:
+                total["incomplete"] += 1
+                total["samples"].append("%s: harness failed" % name)
+            return
         d = vlib.spec_scratch(wd, "x-" + name, ["ccontainer", "lib"])
         consts = ["Prog <- ScProg", "InitVal = %d" % sc.get("init", 0), "M = %d" % sc.get("m", 0), "EagerWake = FALSE"]
         vlib.write_mc(d, "MCX", "CContainerXTrace", ["ScProg == " + vlib.json2tla(tla_prog(sc))],
@@ -128,14 +133,22 @@ def x_conformance(wd, binp, seed, names, nrand=100):
                          env={"TRACE_FILE": tf, "VERDICT_FILE": vf,
                               "JAVA_TOOL_OPTIONS": "-DTLA-Library=%s -Xmx3g -Xss256m -Dtlc2.tool.impl.Tool.cdot=true" % vlib.TLA_LIB})
         if not os.path.exists(vf):
-            total["samples"].append("%s: X-trace validation did not finish: %s" % (name, r["error"] or r["out"][-300:]))
-            continue
+            with lock:
+                total["incomplete"] += 1
+                total["samples"].append("%s: X-trace validation did not finish: %s" % (name, r["error"] or r["out"][-300:]))
+            return
         v = json.load(open(vf))
-        total["traces"] += nrand
-        total["events"] += v["total"]
-        total["steps"] += json.load(open(stf)).get("steps", 0)
-        total["drift"] += len(v["drift"])
-        total["samples"] += ["%s: %s" % (name, json.dumps(x)) for x in v["drift"][:2]]
+        with lock:
+            total["traces"] += nrand
+            total["events"] += v["total"]
+            total["steps"] += json.load(open(stf)).get("steps", 0)
+            total["drift"] += len(v["drift"])
+            total["samples"] += ["%s: %s" % (name, json.dumps(x)) for x in v["drift"][:2]]
         shutil.rmtree(d, ignore_errors=True)
+    # the scenarios are independent (one harness run + one single-worker TLC run each)
+    from concurrent.futures import ThreadPoolExecutor
+    with ThreadPoolExecutor(max_workers=max(1, min(4, vlib.NCPU))) as ex:
+        list(ex.map(one, names))
+    total["samples"].sort()
     total["wall_s"] = round(time.time() - t0, 1)
     return total
